@@ -53,7 +53,15 @@ MonId ==
     /\ Check("C12", "SameIdOnEveryInterface", Ev.id = Ev.want)
     /\ Check("C12", "IdsDistinct", Ev.distinct)
 
+\* every kind of log key the configuration format admits: what the configured key did not sign is refused (C02), whatever its length (C19)
+CheckSig(id, name, sig, ok) == ok \/ PrintT("FAIL " \o ToJson([id |-> id, name |-> name, i |-> i, run |-> Ev.run, k |-> Ev.k, sig |-> sig]))
+MonKeyType ==
+    /\ CheckSig("C02", "ConfiguredKeyVerifiesWhatItSigned", "keytype/" \o Ev.alg \o "/signature-check",
+                Ev.configok => Ev.validaccepted /\ Ev.garbagerefused /\ Ev.otherkeyrefused)
+    /\ CheckSig("C19", "NoSignatureMakesTheVerifierPanic", "keytype/" \o Ev.alg \o "/panic", Ev.oddlengthssurvived)
+
 Monitor == CASE Ev.e = "start.shipped" -> MonShipped
+             [] Ev.e = "keytype" -> MonKeyType
              [] Ev.e = "start.generated" -> MonGenerated
              [] Ev.e = "id" -> MonId
              [] OTHER -> TRUE
